@@ -19,8 +19,7 @@ theorem parseLoop_bad (cfg : Cfg Msg) (c : Conn Msg) (h : parseOne cfg.dec c.rbu
 theorem parseLoop_msg (cfg : Cfg Msg) (c : Conn Msg) (m : Msg) (rest : Bytes)
     (h : parseOne cfg.dec c.rbuf = .msg m rest) :
     parseLoop cfg c =
-      if cfg.isNone m then { c with rbuf := rest }
-      else if cfg.cbDisc m then disconnect { c with rbuf := rest, delivered := c.delivered ++ [m] }
+      if cfg.cbDisc m then disconnect { c with rbuf := rest, delivered := c.delivered ++ [m] }
       else parseLoop cfg { c with rbuf := rest, delivered := c.delivered ++ [m] } := by
   rw [parseLoop]
   split
@@ -36,11 +35,9 @@ theorem parseLoop_msg (cfg : Cfg Msg) (c : Conn Msg) (m : Msg) (rest : Bytes)
 theorem parseLoop_induct (cfg : Cfg Msg) (P : Conn Msg → Conn Msg → Prop)
     (hwait : ∀ c, parseOne cfg.dec c.rbuf = .wait → P c c)
     (hbad : ∀ c, parseOne cfg.dec c.rbuf = .bad → P c (disconnect c))
-    (hnone : ∀ c m rest, parseOne cfg.dec c.rbuf = .msg m rest → cfg.isNone m = true →
-      P c { c with rbuf := rest })
-    (hcb : ∀ c m rest, parseOne cfg.dec c.rbuf = .msg m rest → cfg.isNone m = false → cfg.cbDisc m = true →
+    (hcb : ∀ c m rest, parseOne cfg.dec c.rbuf = .msg m rest → cfg.cbDisc m = true →
       P c (disconnect { c with rbuf := rest, delivered := c.delivered ++ [m] }))
-    (hrec : ∀ c m rest, parseOne cfg.dec c.rbuf = .msg m rest → cfg.isNone m = false → cfg.cbDisc m = false →
+    (hrec : ∀ c m rest, parseOne cfg.dec c.rbuf = .msg m rest → cfg.cbDisc m = false →
       P { c with rbuf := rest, delivered := c.delivered ++ [m] }
         (parseLoop cfg { c with rbuf := rest, delivered := c.delivered ++ [m] }) →
       P c (parseLoop cfg { c with rbuf := rest, delivered := c.delivered ++ [m] })) :
@@ -53,19 +50,13 @@ theorem parseLoop_induct (cfg : Cfg Msg) (P : Conn Msg → Conn Msg → Prop)
     | bad => rw [parseLoop_bad cfg c hp]; exact hbad c hp
     | msg m rest =>
       rw [parseLoop_msg cfg c m rest hp]
-      cases hnn : cfg.isNone m with
-      | true => simp only [if_true]; exact hnone c m rest hp hnn
+      cases hcc : cfg.cbDisc m with
+      | true => simp only [if_true]; exact hcb c m rest hp hcc
       | false =>
-        cases hcc : cfg.cbDisc m with
-        | true => simp only [Bool.false_eq_true, if_false, if_true]; exact hcb c m rest hp hnn hcc
-        | false =>
-          simp only [Bool.false_eq_true, if_false]
-          apply hrec c m rest hp hnn hcc
-          have hl := parseOne_msg_length hp
-          exact ih rest.length (by omega) _ rfl
-
-/-- decodable payloads never decode to Python's `None` (messages are not `None`) -/
-def NoNone (cfg : Cfg Msg) : Prop := ∀ p m, cfg.dec p = some m → cfg.isNone m = false
+        simp only [Bool.false_eq_true, if_false]
+        apply hrec c m rest hp hcc
+        have hl := parseOne_msg_length hp
+        exact ih rest.length (by omega) _ rfl
 
 theorem parseOne_msg_dec {dec : Bytes → Option Msg} {b : Bytes} {m : Msg} {rest : Bytes}
     (h : parseOne dec b = .msg m rest) : ∃ p, dec p = some m := by
@@ -103,7 +94,7 @@ theorem Conn.atTime_feed (c : Conn Msg) (t : Nat) (x : Bytes) : (c.atTime t).fee
 
 /-- **Appending bytes commutes with parsing**: parsing `buffer ++ x` is the same as parsing `buffer`
 first and, when that left the connection up, appending `x` to what is left and parsing again. -/
-theorem parseLoop_append (cfg : Cfg Msg) (hN : NoNone cfg) (x : Bytes) (c : Conn Msg)
+theorem parseLoop_append (cfg : Cfg Msg) (x : Bytes) (c : Conn Msg)
     (hc : c.state = .connected) :
     parseLoop cfg (c.feed x) =
       if (parseLoop cfg c).state = .connected then parseLoop cfg ((parseLoop cfg c).feed x)
@@ -112,7 +103,7 @@ theorem parseLoop_append (cfg : Cfg Msg) (hN : NoNone cfg) (x : Bytes) (c : Conn
   refine parseLoop_induct cfg
     (fun c c' => c.state = .connected → parseLoop cfg (c.feed x) =
       if c'.state = .connected then parseLoop cfg (c'.feed x) else c')
-    ?_ ?_ ?_ ?_ ?_ c
+    ?_ ?_ ?_ ?_ c
   · intro c _ hc
     simp [hc]
   · intro c hp hc
@@ -120,38 +111,32 @@ theorem parseLoop_append (cfg : Cfg Msg) (hN : NoNone cfg) (x : Bytes) (c : Conn
     simp only [this, if_false]
     rw [parseLoop_bad cfg (c.feed x) (parseOne_bad_append cfg.dec c.rbuf x hp)]
     rfl
-  · intro c m rest hp hn _
-    obtain ⟨p, hd⟩ := parseOne_msg_dec hp
-    rw [hN p m hd] at hn
-    cases hn
-  · intro c m rest hp hn hcb hc
+  · intro c m rest hp hcb hc
     have : (disconnect { c with rbuf := rest, delivered := c.delivered ++ [m] }).state ≠ .connected := by
       simp [disconnect]
     simp only [this, if_false]
     rw [parseLoop_msg cfg (c.feed x) m (rest ++ x) (parseOne_msg_append cfg.dec c.rbuf x m rest hp)]
-    simp only [hn, hcb, Bool.false_eq_true, if_false, if_true]
+    simp only [hcb, if_true]
     rfl
-  · intro c m rest hp hn hcb ih hc
+  · intro c m rest hp hcb ih hc
     rw [parseLoop_msg cfg (c.feed x) m (rest ++ x) (parseOne_msg_append cfg.dec c.rbuf x m rest hp)]
-    simp only [hn, hcb, Bool.false_eq_true, if_false]
+    simp only [hcb, Bool.false_eq_true, if_false]
     exact ih hc
 
 /-- the clock field is only carried along by the parse loop -/
 theorem parseLoop_lastRead (cfg : Cfg Msg) (t : Nat) (c : Conn Msg) :
     parseLoop cfg { c with lastRead := t } = { parseLoop cfg c with lastRead := t } := by
   refine parseLoop_induct cfg
-    (fun c c' => parseLoop cfg { c with lastRead := t } = { c' with lastRead := t }) ?_ ?_ ?_ ?_ ?_ c
+    (fun c c' => parseLoop cfg { c with lastRead := t } = { c' with lastRead := t }) ?_ ?_ ?_ ?_ c
   · intro c hp
     exact parseLoop_wait cfg { c with lastRead := t } hp
   · intro c hp
     rw [parseLoop_bad cfg { c with lastRead := t } hp]; rfl
-  · intro c m rest hp hn
-    rw [parseLoop_msg cfg { c with lastRead := t } m rest hp]; simp [hn]
-  · intro c m rest hp hn hcb
-    rw [parseLoop_msg cfg { c with lastRead := t } m rest hp]; simp [hn, hcb]; rfl
-  · intro c m rest hp hn hcb ih
+  · intro c m rest hp hcb
+    rw [parseLoop_msg cfg { c with lastRead := t } m rest hp]; simp [hcb]; rfl
+  · intro c m rest hp hcb ih
     rw [parseLoop_msg cfg { c with lastRead := t } m rest hp]
-    simp only [hn, hcb, Bool.false_eq_true, if_false]
+    simp only [hcb, Bool.false_eq_true, if_false]
     exact ih
 
 /-! ### READ events -/
@@ -207,12 +192,11 @@ theorem parseLoop_state (cfg : Cfg Msg) (c : Conn Msg) (hc : c.state = .connecte
     (parseLoop cfg c).state = .connected ∨ (parseLoop cfg c).state = .disconnected := by
   revert hc
   refine parseLoop_induct cfg
-    (fun c c' => c.state = .connected → c'.state = .connected ∨ c'.state = .disconnected) ?_ ?_ ?_ ?_ ?_ c
+    (fun c c' => c.state = .connected → c'.state = .connected ∨ c'.state = .disconnected) ?_ ?_ ?_ ?_ c
   · intro c _ hc; exact Or.inl hc
   · intro c _ _; exact Or.inr rfl
-  · intro c m rest _ _ hc; exact Or.inl hc
-  · intro c m rest _ _ _ _; exact Or.inr rfl
-  · intro c m rest _ _ _ ih hc; exact ih hc
+  · intro c m rest _ _ _; exact Or.inr rfl
+  · intro c m rest _ _ ih hc; exact ih hc
 
 theorem Conn.atTime_fields {a b : Conn Msg} {t : Nat} (h : a.atTime t = b.atTime t) :
     a.delivered = b.delivered ∧ a.state = b.state ∧ a.rbuf = b.rbuf ∧ a.wbuf = b.wbuf ∧
@@ -232,7 +216,7 @@ theorem parseLoop_atTime (cfg : Cfg Msg) (t : Nat) (c : Conn Msg) :
 /-- **Fragmentation independence.**  Whatever bytes arrive, cut into whatever chunks, grouped into whatever
 READ events: the result is the parse loop applied once to the old buffer followed by all the bytes
 (up to the clock field).  Stated for a connection whose buffer has been looked at (`parseLoop cfg c`). -/
-theorem run_reads_eq (cfg : Cfg Msg) (hN : NoNone cfg) (evs : List (Nat × List Bytes)) :
+theorem run_reads_eq (cfg : Cfg Msg) (evs : List (Nat × List Bytes)) :
     ∀ (c : Conn Msg), c.state = .connected →
       (∀ e ∈ evs, ∀ b ∈ e.2, b ≠ []) → gapsOk cfg.timeout c.lastRead (evs.map (·.1)) → ∀ t,
       (run cfg (parseLoop cfg c) (evs.map fun e => readEv e.1 e.2)).atTime t =
@@ -246,7 +230,7 @@ theorem run_reads_eq (cfg : Cfg Msg) (hN : NoNone cfg) (evs : List (Nat × List 
     simp only [List.map_cons, gapsOk] at hg
     have hB : ((e :: evs).map (·.2)).flatten.flatten = e.2.flatten ++ (evs.map (·.2)).flatten.flatten := by
       simp
-    rw [hB, parseLoop_append cfg hN _ c hc]
+    rw [hB, parseLoop_append cfg _ c hc]
     rcases parseLoop_state cfg c hc with hs | hs
     · have h1 : run cfg (parseLoop cfg c) ((e :: evs).map fun e => readEv e.1 e.2) =
           run cfg (parseLoop cfg (((parseLoop cfg c).feed e.2.flatten).atTime e.1))
@@ -274,10 +258,10 @@ theorem frames_cons (cfg : Cfg Msg) (m : Msg) (ms : List Msg) :
 theorem frames_append (cfg : Cfg Msg) (a b : List Msg) : frames cfg (a ++ b) = frames cfg a ++ frames cfg b := by
   simp [frames]
 
-/-- what the reader needs of a message: it survives encode/decode, fits the 31-bit length field, is not
-`None`, and its callback leaves the connection alone -/
+/-- what the reader needs of a message: it survives encode/decode, fits the 31-bit length field, and its
+callback leaves the connection alone (any value, Python's `None` included, is a message: repair D75) -/
 def MsgOk (cfg : Cfg Msg) (m : Msg) : Prop :=
-  cfg.dec (cfg.enc m) = some m ∧ (cfg.enc m).length < 2147483648 ∧ cfg.isNone m = false ∧ cfg.cbDisc m = false
+  cfg.dec (cfg.enc m) = some m ∧ (cfg.enc m).length < 2147483648 ∧ cfg.cbDisc m = false
 
 /-- a buffer that starts with the frames of `ms`: the loop delivers exactly `ms`, in order, and goes on
 with what follows -/
@@ -291,12 +275,12 @@ theorem parseLoop_frames (cfg : Cfg Msg) (ms : List Msg) (hok : ∀ m ∈ ms, Ms
     simp [← hr]
   | cons m ms ih =>
     intro c tail hr
-    obtain ⟨hd, hs, hn, hcb⟩ := hok m (by simp)
+    obtain ⟨hd, hs, hcb⟩ := hok m (by simp)
     rw [frames_cons, List.append_assoc] at hr
     have hp : parseOne cfg.dec c.rbuf = .msg m (frames cfg ms ++ tail) := by
       rw [hr]; exact parseOne_frame cfg.dec _ _ m hd hs
     rw [parseLoop_msg cfg c m _ hp]
-    simp only [hn, hcb, Bool.false_eq_true, if_false]
+    simp only [hcb, Bool.false_eq_true, if_false]
     rw [ih (fun m' hm' => hok m' (by simp [hm'])) _ tail rfl]
     simp [List.append_assoc]
 
